@@ -15,6 +15,9 @@ use crate::runner::guard;
 /// One generated expression with its parsed forms and context.
 pub struct GenCase {
     pub text: String,
+    /// The tree the generator denotes for `text` (built without the parser).
+    pub denoted: OpeningHoursExpression,
+    /// The tree the library's parser returns for `text`.
     pub ast: OpeningHoursExpression,
     pub oh: OpeningHours,
     pub holidays: GenHolidays,
@@ -23,7 +26,7 @@ pub struct GenCase {
 
 /// Generate a sentence, parse it with the library and attach generated holiday calendars.
 pub fn gen_case(ch: &mut Choices, cfg: &Cfg) -> Result<GenCase, String> {
-    let (_, text) = gen_expr(ch, cfg);
+    let (denoted, text) = gen_expr(ch, cfg);
     let holidays = gen_holidays(ch, cfg.base_year);
     let ast = match guard(|| opening_hours_syntax::parse(&text)) {
         Err(p) => return Err(format!("{text}: parse panicked: {p}")),
@@ -33,7 +36,7 @@ pub fn gen_case(ch: &mut Choices, cfg: &Cfg) -> Result<GenCase, String> {
     let oh = OpeningHours::parse(&text)
         .map_err(|e| format!("{text}: OpeningHours::parse rejects what the syntax crate accepts: {e}"))?
         .with_context(Context::default().with_holidays(holidays.holidays.clone()));
-    Ok(GenCase { text, ast, oh, holidays, base_year: cfg.base_year })
+    Ok(GenCase { text, denoted, ast, oh, holidays, base_year: cfg.base_year })
 }
 
 pub fn kind_char(k: RuleKind) -> char {
